@@ -1,0 +1,11 @@
+//go:build verif
+// +build verif
+
+package jsonrpc2
+
+// VerifPendingLen returns the size of the reply-routing table (verification hook).
+func (r *Remote) VerifPendingLen() int {
+	r.mu.Lock()
+	defer r.mu.Unlock()
+	return len(r.pending)
+}
